@@ -16,7 +16,7 @@ replacing, and the vanished-key arms compare against retirement_timestamp() befo
 retired_at, refcount = 0 and link_successor are written only with the bucket guard held, and retired_at only by the three
 removal paths. Not decided: linearizability of histories.
 """
-DECIDED = ['expiry inside increment / CAS is judged against the wall clock every reader uses (shared with C11.pred)', "pointer-identity re-validation before replace/remove", "retirement_timestamp comparison for raced writers",
+DECIDED = ['a creator that lost the race for the bucket is judged again against the winner before it answers', 'expiry inside increment / CAS is judged against the wall clock every reader uses (shared with C11.pred)', "pointer-identity re-validation before replace/remove", "retirement_timestamp comparison for raced writers",
            "retirement stamps / successor links only under the bucket guard",
            'a lost compare-exchange of the version clock is retried and its result examined',
            'retirement_timestamp walks the whole successor chain']
